@@ -1,4 +1,5 @@
 import StunVerif.Props.C06
+import StunVerif.Props.C06Sched
 #print axioms StunVerif.C06.req_early
 #print axioms StunVerif.C06.req_retransmit
 #print axioms StunVerif.C06.req_timeout
@@ -16,3 +17,5 @@ import StunVerif.Props.C06
 #print axioms StunVerif.C06.idle_wait
 #print axioms StunVerif.C06.cancel_rtx_sets
 #print axioms StunVerif.C06.cancel_rtx_silent
+#print axioms StunVerif.C06.polls_eq_rfc
+#print axioms StunVerif.C06.configured_udp_polls
